@@ -24,7 +24,11 @@ def run(label):
     last = [l for l in r.stdout.splitlines() if l.strip()][-1:] or [""]
     return "%s: rc=%d %s" % (label, r.returncode, last[0][:120])
 print("cmd:", cmd)
+# worktree := clean HEAD + the agent's own patch.diff (git stash is shared between worktrees, so it is not used)
+subprocess.run(["git", "-C", wt, "checkout", "-q", "--", "src", "README.md"])
+a = subprocess.run(["git", "-C", wt, "apply", wt + "/_seed/patch.diff"], stdout=subprocess.PIPE, stderr=subprocess.STDOUT, text=True)
+if a.returncode != 0: print("PATCH DOES NOT APPLY:", a.stdout[-300:]); sys.exit(3)
 print(run("with change"))
-subprocess.run(["git", "-C", wt, "stash", "-q"]); 
+subprocess.run(["git", "-C", wt, "apply", "-R", wt + "/_seed/patch.diff"])
 try: print(run("clean tree"))
-finally: subprocess.run(["git", "-C", wt, "stash", "pop", "-q"])
+finally: subprocess.run(["git", "-C", wt, "apply", wt + "/_seed/patch.diff"])
